@@ -335,6 +335,39 @@ Section IE.
 End IE.
 
 (* ---------------------------------------------------------------------------------------------- *)
+(* InversionEnabler.apply, the numerical branch (inversion_enabler.py:66-77): the glue around CG      *)
+(* ---------------------------------------------------------------------------------------------- *)
+
+Section IESolve.
+  Variable T : Type.
+  Variable A : arith T.
+  Variable V : Type.
+  Variables (vadd vsub : V -> V -> V).
+  Variable vscale : V -> T -> V.
+  Variable smul : T -> V -> V.
+  Variable vdot : V -> V -> T.
+  Variable CS : Type.
+  Variable ctrl_start : qenergy T V -> CS * status.      (* self._ic *)
+  Variable ctrl_check : CS -> qenergy T V -> CS * status.
+  Variable zero : V.                                     (* full(x.domain, 0.) *)
+
+  (* x0 = full(x.domain, 0.);  energy = QuadraticEnergy(x0, invop, x) *)
+  Definition ie_energy0 (invop : V -> V) (x : V) : qenergy T V :=
+    qe_at A vadd vsub invop (Some x) vdot zero.
+
+  (* inverter = ConjugateGradient(self._ic)             -- nreset = 20 (default of __init__)
+     r, stat = inverter(energy, preconditioner=prec)
+     if stat != IterationController.CONVERGED: logger.warning(...)
+     return r.position
+     result: (returned field, final energy, warning logged?) *)
+  Definition ie_solve (invop : V -> V) (prec : option (V -> V)) (x : V) (fuel : nat)
+    : V * qenergy T V * bool :=
+    let '(r, stat, _, _) := cg A vadd vsub vscale smul invop (Some x) prec vdot ctrl_start ctrl_check
+                               20%Z fuel (ie_energy0 invop x) in
+    (q_pos r, r, negb (status_eqb stat CONVERGED)).
+End IESolve.
+
+(* ---------------------------------------------------------------------------------------------- *)
 (* IEEE instance and replay of recorded runs                                                        *)
 (* ---------------------------------------------------------------------------------------------- *)
 
@@ -426,3 +459,12 @@ Definition plan_eqb (a b : ie_plan) : bool :=
   | IeRefuse, IeRefuse => true
   | _, _ => false
   end.
+
+(* Start of the numerical branch of InversionEnabler.apply on a real (complex: re/im interleaved) system:
+   [first_in] is the first argument the wrapped operator received (must be x0 = 0), [op0] what it returned
+   for it, [second_in] the argument of the NEXT application (of the approximation if there is one, else of
+   the wrapped operator): the start residual  invop(x0) - x  of QuadraticEnergy(x0, invop, x). *)
+Definition ie_start_case (zero x first_in op0 second_in : list float) : bool :=
+  let e0 := ie_energy0 float_arith fv_add fv_sub (fun _ _ : list float => PrimFloat.nan) zero
+                       (fun _ => op0) x in
+  vsame (q_pos e0) first_in && vsame (q_grad e0) second_in.
